@@ -53,7 +53,7 @@ def main():
             json.dump(m, open(mp, "w"), indent=1)
             print(name, {c: r["exit"] for c, r in m["checks"].items()})
     if "--table-only" not in sys.argv:
-        sh("python3 /verif/tools/extract.py --gen; python3 /verif/tools/rs2lean.py --gen")   # the generated files must reflect the clean tree again
+        sh("python3 /verif/tools/extract.py --gen; python3 /verif/tools/rs2lean.py --gen; python3 /verif/tools/rs2lean_buf.py --gen")   # the generated files must reflect the clean tree again
     s = open("/verif/DESIGN.md").read()
     b, e = "<!-- SEEDS:BEGIN -->", "<!-- SEEDS:END -->"
     if b in s:
